@@ -48,9 +48,21 @@ FirstDev(devs, e) ==
        ELSE FirstDev(Tail(devs), e)
 
 \* C10 is judged on its own predicate, independently of whether the values are right
+\* fields a non-instruction step may change
+KindWrites(kind, item) ==
+  CASE kind = "empty" -> {}
+    [] kind = "list" -> {"exec"}
+    [] kind = "unknown" -> {"exec"}
+    [] kind = "quoted" -> {"exec", "name", "quote"}
+    [] kind = "bound" -> {"exec"}
+    [] kind = "free" -> {"exec", "name"}
+    [] kind = "literal" -> {"exec", LiteralField(item.k)}
+    [] OTHER -> AllFields
 FrameJudge(e, pre, sr) ==
-  IF Crashed(e) \/ sr.kind # "instr" THEN <<>>
-  ELSE SetAsSeq(FrameViolations(pre.exec[1].v, PopN(pre, "exec", 1), e.post, sr.res.fired))
+  IF Crashed(e) THEN <<>>
+  ELSE IF sr.kind = "instr"
+  THEN SetAsSeq(FrameViolations(pre.exec[1].v, PopN(pre, "exec", 1), e.post, sr.res.fired))
+  ELSE SetAsSeq({f \in AllFields \ KindWrites(sr.kind, IF pre.exec = <<>> THEN EmptyList ELSE pre.exec[1]) : e.post[f] # pre[f]})
 
 JudgeStep(e, pre) ==
   LET sr   == Step(pre)
@@ -168,7 +180,7 @@ JudgeRoundtrip(e, pre) ==
        IF ~(Len(x.t2) = 1 /\ SkeletonEq(t, x.t2[1]) /\ x.untouched)
        THEN Verdict("mismatch", "roundtrip", "C11", <<"t2">>, "parse(print(t)) is not structurally equal to t")
        ELSE IF x.p2 # x.p1 THEN Verdict("mismatch", "roundtrip", "C11", <<"p2">>, "print(parse(print(t))) differs from print(t)")
-       ELSE IF ~Fuzzy(t) /\ (x.p1 # PrintItem(t) \/ x.t2[1] # t)
+       ELSE IF ~Fuzzy(t) /\ (x.p1 # PrintItem(t) \/ (~HasFloat(t) /\ x.t2[1] # t))
        THEN Verdict("mismatch", "roundtrip", "C11", <<"p1">>, "printed form or re-parsed tree differs from the specification")
        ELSE Blank("ok", "roundtrip")
 \* textual renderings of the stacks: top first, blank separated
